@@ -146,12 +146,24 @@ pub fn judge(outcomes: &[Outcome], applied: &Applied, before: &Zone, after: &Zon
     Err(best.unwrap())
 }
 
+/// deviating rules that may be used to explain an observation: only those whose finding is still
+/// recorded as `known` — once a defect is fixed in /repo its rule is no explanation any more, and a
+/// regression shows up as an unexplained deviation
+fn candidate_quirks() -> &'static Vec<Quirk> {
+    static Q: std::sync::OnceLock<Vec<Quirk>> = std::sync::OnceLock::new();
+    Q.get_or_init(|| {
+        let known = crate::core::known_signatures("C12");
+        ALL_QUIRKS.iter().copied().filter(|q| known.iter().any(|k| k == q.sig())).collect()
+    })
+}
+
 fn subsets(max: usize) -> Vec<Quirks> {
-    let n = ALL_QUIRKS.len();
+    let cands = candidate_quirks();
+    let n = cands.len();
     let mut v: Vec<Quirks> = Vec::new();
     for mask in 1u32..(1 << n) {
         if (mask.count_ones() as usize) <= max {
-            v.push((0..n).filter(|i| mask & (1 << i) != 0).map(|i| ALL_QUIRKS[i]).collect());
+            v.push((0..n).filter(|i| mask & (1 << i) != 0).map(|i| cands[i]).collect());
         }
     }
     v.sort_by_key(|q| q.len());
